@@ -676,6 +676,7 @@ func runC09(r *Run) {
 	if !r.Thorough() && nchild > 60 {
 		nchild = 60
 	}
+	c09PointerHistory(r)
 	runtime.GOMAXPROCS(8)
 	c09FreshChildren(r, probes[:nchild], fresh[:nchild])
 	runtime.GOMAXPROCS(1)
@@ -687,6 +688,13 @@ func runC09(r *Run) {
 func replayC09(r *Run, file string) {
 	var c c09Case
 	loadReplay(file, &c)
+	if c.Kind == "pointer-history" {
+		_, restore := c09Begin()
+		c09PointerHistory(r)
+		restore()
+		finishReplay(r)
+		return
+	}
 	if x, ok := c09Unpack(c.Exact); ok {
 		c.Probe, c.History = x.Probe, x.History
 	}
